@@ -71,6 +71,11 @@ func TestWorker(t *testing.T) {
 			fmt.Println(string(b))
 		}
 	}
+	OnBusyLoop = func(r *core.Result) {
+		emit(r)
+		fmt.Fprintf(os.Stderr, "bsim: stopping: a call of seed %d never returns\n", r.Spec.Seed)
+		os.Exit(10)
+	}
 	if *fReplay != "" {
 		b, err := os.ReadFile(*fReplay)
 		if err != nil {
